@@ -19,6 +19,8 @@ def run_rbql(text, T, B=None, ha=None, hb=None, normalize=True):
         rbql_engine.query_table(text, T, out, warnings, B, ha, hb, hdr, normalize)
     except (rbql_engine.RbqlRuntimeError, rbql_engine.RbqlParsingError, rbql_engine.RbqlIOHandlingError) as e:
         return ('err', type(e).__name__, e.args[0] if e.args else '', out)
+    except Exception as e:  # noqa -- a raw Python exception escaping the engine (e.g. unorderable sort keys at finish())
+        return ('raw', type(e).__name__)
     return ('ok', out, hdr if len(hdr) else None, warnings)
 
 
@@ -31,6 +33,8 @@ def _hdr_norm(got, exp):
 
 def normalise(got, exp):
     """Brings the real outcome and the reference outcome to directly comparable values."""
+    if exp[0] == 'raw' or got[0] == 'raw':
+        return (got, exp)
     if exp[0] == 'err':
         e = ('err', exp[1], exp[2], True)
         if got[0] == 'err':
